@@ -397,6 +397,8 @@ package impl
 //@   let uv = evalRes(args[0], ctx.ExternalConstants, ctx.Now, input)
 //@   let uok = evalErr(args[0], ctx.ExternalConstants, ctx.Now, input) == nil && len(uv) == 1 && fromOk(uv[0]) && isStringV(fromS(uv[0]))
 //@   ensures len(input) == 0 && len(args) == 1 && uok ==> err == nil && len(res) == 0
+//@   loop 1 (i):
+//@     invariant i == 0 ==> len(result) == 0
 //@   assigns nothing
 //
 //@ func ReplaceMatches(ctx, input, args) (res, err)
